@@ -301,6 +301,67 @@ pub fn vf_vec_clone(a: &Vec<u8>) -> (r: Vec<u8>)
     ensures r@ == a@
 { unimplemented!() }
 
+// ---- the registered mutators (Vec<Box<dyn Mutator>>) behind an opaque list ---------------------------
+// Trait-level contract of one registered mutator: the weakest contract that every built-in mutator
+// satisfies (proved per mutator in unit mutv / by the Kani harnesses u8_*; methods a mutator does not
+// implement return None / false by the trait's default bodies).
+#[verifier::external_body]
+pub struct VfMutator { inner: usize }
+pub uninterp spec fn vf_mutators_len_spec(m: &VfMutators) -> nat;
+pub uninterp spec fn vf_mutator_spec(m: &VfMutators, i: int) -> VfMutator;
+#[verifier::external_body]
+pub fn vf_mutators_is_empty(m: &VfMutators) -> (r: bool)
+    ensures r == (vf_mutators_len_spec(m) == 0)
+{ unimplemented!() }
+#[verifier::external_body]
+pub fn vf_mutators_len(m: &VfMutators) -> (r: usize)
+    ensures r == vf_mutators_len_spec(m)
+{ unimplemented!() }
+#[verifier::external_body]
+pub fn vf_mutator_at(m: &VfMutators, i: usize) -> (r: &VfMutator)
+    requires i < vf_mutators_len_spec(m)
+    ensures *r == vf_mutator_spec(m, i as int)
+{ unimplemented!() }
+impl VfMutator {
+    /// the unsafe_mode the mutator was created with (MutatorKind::create(unsafe_mode))
+    pub uninterp spec fn unsafe_mode(&self) -> bool;
+    #[verifier::external_body]
+    pub fn mutate_int(&self, value: i32, source: &mut GenerationSource, rate: f64) -> (r: Option<i32>) { unimplemented!() }
+    #[verifier::external_body]
+    pub fn mutate_long(&self, value: i64, source: &mut GenerationSource, rate: f64) -> (r: Option<i64>) { unimplemented!() }
+    #[verifier::external_body]
+    pub fn mutate_float(&self, value: f64, source: &mut GenerationSource, rate: f64) -> (r: Option<f64>) { unimplemented!() }
+    #[verifier::external_body]
+    pub fn mutate_memo_index(&self, index: usize, source: &mut GenerationSource, rate: f64) -> (r: Option<usize>) { unimplemented!() }
+    #[verifier::external_body]
+    pub fn mutate_string(&self, value: String, source: &mut GenerationSource, rate: f64) -> (r: Option<String>)
+        ensures r is Some ==> r->Some_0@.len() <= 2 * value@.len() + 9 && (printable(value@) ==> printable(r->Some_0@))
+    { unimplemented!() }
+    #[verifier::external_body]
+    pub fn mutate_bytes(&self, value: Vec<u8>, source: &mut GenerationSource, rate: f64) -> (r: Option<Vec<u8>>)
+        ensures r is Some ==> r->Some_0@.len() <= 2 * value@.len() + 9
+    { unimplemented!() }
+    /// only TypeConfusionMutator overrides post_process (contract proved in unit mutv); the default body returns false
+    #[verifier::external_body]
+    pub fn post_process(&self, snapshot: &EmissionSnapshot, output: &mut Vec<u8>, source: &mut GenerationSource, rate: f64) -> (fired: bool)
+        requires snapshot.output_len <= old(output)@.len()
+        ensures
+            !self.unsafe_mode() ==> final(output)@ == old(output)@,
+            final(output)@ == old(output)@
+                || exists|rep: Seq<u8>, k: int| final(output)@ == old(output)@.take(snapshot.output_len as int) + rep && #[trigger] replacement_ok(rep, k),
+    { unimplemented!() }
+}
+/// `v[n..].to_vec()`
+#[verifier::external_body]
+pub fn vf_bytes_tail(v: &Vec<u8>, n: usize) -> (r: Vec<u8>)
+    requires n <= v@.len()
+    ensures r@ == v@.skip(n as int)
+{ unimplemented!() }
+#[verifier::external_body]
+pub fn vf_stack_tail(v: &Vec<StackObjectRef>, n: usize) -> (r: Vec<StackObjectRef>)
+    requires n <= v@.len()
+{ unimplemented!() }
+
 // ---- where the entropy of a generation call comes from (C07 / C08) -----------------------------------
 pub enum VfOrigin { Seed(u64), OsRandom, Bytes(Seq<u8>) }
 #[verifier::external_body]
